@@ -59,6 +59,15 @@ func genC13(tier string, seed int64) (*Family, error) {
 		fmt.Fprintf(&b, "\n// %s\nfunc %s() {\n\tn := 4\n\ts := fixedSal(n)\n\tf := symFlags(\"f\", n)\n\trb := build(n, s, f)\n\teng := engine.NewGengine()\n\terr := eng.ExecuteDAGModel(rb, [][]string{%s})\n\tvnd.Event(\"ret\")\n\tvnd.Quiesce()\n\tvnd.Reach(\"executed\")\n\tcheckDAG(n, [][]int{%s}, f, err)\n}\n",
 			desc, name, strings.Join(dl, ", "), strings.Join(il, ", "))
 		fam.Instances = append(fam.Instances, Instance{Func: name, Stratum: fmt.Sprintf("layers=%d", len(d)), Desc: desc, Expect: []string{"executed"}})
+		if k >= 1 && k <= 5 {
+			// the same layering with rules that fail at rule level (no statement-level recover involved)
+			src := b.String()
+			at := strings.LastIndex(src, "\n// "+desc+"\nfunc "+name+"()")
+			variant := strings.Replace(src[at:], "func "+name+"()", "func "+name+"_rulelevel()", 1)
+			variant = strings.Replace(variant, "rb := build(n, s, f)", "rb := buildText(newDC(f), rulesTextOpt(n, s, \"r\"))", 1)
+			b.WriteString(variant)
+			fam.Instances = append(fam.Instances, Instance{Func: name + "_rulelevel", Stratum: fmt.Sprintf("layers=%d:rule-level-fault", len(d)), Desc: desc + ", rules failing at rule level", Expect: []string{"executed"}})
+		}
 	}
 	// empty DAG
 	b.WriteString("\nfunc H_DAG_empty() {\n\tn := 2\n\trb := build(n, fixedSal(n), symFlags(\"f\", n))\n\teng := engine.NewGengine()\n\terr := eng.ExecuteDAGModel(rb, nil)\n\tvnd.Reach(\"executed\")\n\tvnd.Assert(err == nil, \"an empty DAG runs nothing and succeeds\")\n\tvnd.Assert(len(vnd.Trace()) == 0, \"nothing runs\")\n}\n")
@@ -185,6 +194,39 @@ func genC14(tier string, seed int64) (*Family, error) {
 	}
 `, n, d.tagCall, d.plainCall, d.id != "Mix"))
 		}
+	}
+	// a second call that is handed the same Stag object while it is still set: the tag counts from the start,
+	// so exactly the first rule of the order runs (the entry points test the tag after a rule, not before)
+	for _, d := range []struct{ id, call string }{
+		{"Sort", "eng.ExecuteWithStopTagDirect(rb, b, stag)"},
+		{"Selected", "eng.ExecuteSelectedRulesWithControlAndStopTag(rb, b, stag, []string{\"r0\", \"r1\", \"r2\"})"},
+		{"AsGiven", "eng.ExecuteSelectedRulesWithControlAndStopTagAsGivenSortedName(rb, b, stag, []string{\"r2\", \"r1\", \"r0\"})"},
+	} {
+		name := "H_ReusedTag" + d.id
+		add(name, "reused-tag:"+d.id, d.id+": second call with the same, still set, tag object", fmt.Sprintf(`	n := 3
+	s := symSal(n)
+	t := symFlags("t", n)
+	b := vnd.Bool("b")
+	_ = b
+	stag := &engine.Stag{}
+	dc := newDC(allFalse(n))
+	addFlags(dc, "t", allTrue(n))
+	dc.Add("stag", stag)
+	rb := buildText(dc, rulesTextOpt(n, s, "t"))
+	eng := engine.NewGengine()
+	_ = %s
+	vnd.Assert(stag.StopTag, "the first call's first rule set the tag")
+	mark := len(vnd.Trace())
+	addFlags(rb.Dc, "t", t)
+	err := %s
+	vnd.Reach("executed")
+	vnd.Assert(err == nil, "no rule fails")
+	started := 0
+	for i := 0; i < n; i++ {
+		started += countSince(mark, sname(i))
+	}
+	vnd.Assert(started == 1, "with the tag already set no rule starts after the first one")
+`, d.call, d.call))
 	}
 	// a rule that sets the tag and then leaves through a return statement
 	for _, d := range []struct{ id, call, oracle string }{
@@ -647,6 +689,41 @@ type sbox struct {
 	In *sin
 }
 `)
+	b.WriteString(`
+type cfgBox struct {
+	Limit int64
+	Name  string
+	Flag  bool
+	Rate  float64
+	Arr   [2]int64
+	Sl    []int64
+}
+
+// a local whose first value came straight from a field / element of an injected object is a copy: assigning
+// to the local later never writes through
+func H_local_from_injected_field() {
+	l0 := vnd.Int64("l0")
+	cfg := &cfgBox{Limit: l0, Name: "pub", Flag: true, Rate: 1.5, Arr: [2]int64{l0, 2}, Sl: []int64{l0, 4}}
+	dc := newDC(nil)
+	dc.Add("Cfg", cfg)
+	sl := []int64{l0, 9}
+	dc.Add("psl", &sl)
+	rb := buildText(dc, "rule \"r0\" salience 9 begin\n t = Cfg.Limit\n t = t * 2\n n = Cfg.Name\n n = \"private\"\n g = Cfg.Flag\n g = false\n r = Cfg.Rate\n r = 2.5\n a = Cfg.Arr[0]\n a = 77\n e = Cfg.Sl[0]\n e += 1\n p = psl[0]\n p = 55\n return t\nend\nrule \"r1\" salience 5 begin\n return Cfg.Limit\nend\n")
+	eng := engine.NewGengine()
+	for call := 0; call < 2; call++ {
+		err := eng.Execute(rb, true)
+		res, _ := eng.GetRulesResultMap()
+		vnd.Assert(err == nil, "the rules succeed")
+		x, ok := res["r0"].(int64)
+		vnd.Assert(ok && x == 2*l0, "the local holds the new value")
+		y, ok2 := res["r1"].(int64)
+		vnd.Assert(ok2 && y == l0, "a later rule reads the injected field unchanged")
+		vnd.Assert(cfg.Limit == l0 && cfg.Name == "pub" && cfg.Flag && cfg.Rate == 1.5 && cfg.Arr[0] == l0 && cfg.Sl[0] == l0 && sl[0] == l0, "assigning to a local never changes the injected object it was read from")
+	}
+	vnd.Reach("executed")
+}
+`)
+	fam.Instances = append(fam.Instances, Instance{Func: "H_local_from_injected_field", Stratum: "local-copy", Desc: "locals initialised from injected fields / elements are copies", Expect: []string{"executed"}})
 	fam.Instances = append(fam.Instances, Instance{Func: "H_same_rule_twice_conc", Stratum: "same-rule-overlap", Desc: "two overlapping executions of one rule inside its conc block", Expect: []string{"executed"}},
 		Instance{Func: "H_function_local", Stratum: "function-local", Desc: "a function-valued local is private to its rule", Expect: []string{"executed"}})
 	fam.Instances = append(fam.Instances, Instance{Func: "H_after_fault", Stratum: "after-fault", Desc: "locals of a faulted execution do not survive", Expect: []string{"executed"}},
